@@ -1,0 +1,14 @@
+//go:build verif
+
+package runtime
+
+// VerifPoolHook, when set by a verification harness, observes buffer pool
+// traffic: event is "get" (a pooled buffer was handed out) or "put" (a buffer
+// was flushed and is about to return to the pool). It never changes behaviour.
+var VerifPoolHook func(event string, b *Buffer)
+
+func verifPool(event string, b *Buffer) {
+	if h := VerifPoolHook; h != nil {
+		h(event, b)
+	}
+}
